@@ -134,6 +134,15 @@ def run(rep, tier="quick", replay=None, evidence_dir=None):
     adt = prog.adt("types::Value")
     rep.ob("C01.R4", "Value has no interior mutability (Freeze)", adt.get("freeze") is True, "freeze=%s" % adt.get("freeze"))
 
+    # ---------------- R5 abandoned trial encodings
+    rep.rule("C01.R5", "a failed trial encoding leaves no bytes: the scratch buffer is cleared on the failure edge before it is used again")
+    import trial
+    tr = [x for x in trial.scan(prog) if x["swallowed"]]
+    for x in tr:
+        rep.ob("C01.R5", "%s: %s(.., &mut %s) failed -> buffer reset before reuse" % (x["fn"], x["callee"], x["buffer"]), x["ok"],
+               x["detail"] + "; the bytes of the abandoned attempt would be written in front of the next attempt", x["loc"])
+    rep.floor("C01.R5", "trial encodings into a reused scratch buffer (encode_internal: bare record for a union)", len(tr), 1)
+
     rep.floor("C01", "obligations", len(rep.obligations), 110)
     rep.not_decided = ["equality of values (varint arithmetic, sign extension, float bits, NaN payloads)", "byte-exact consumption for particular values",
                        "namespace threading at Schema::Ref: the encoder passes the enclosing namespace where decoder/validator/resolver pass the resolved name's; the record arm re-derives it from the record's own name, no input was found on which the difference matters, so no rule is armed"]
